@@ -25,7 +25,8 @@ type procConf struct {
 	configured int64          // < 0: discover
 	netVersion proxykit.Reply // reply to net_version when discovering
 	expectUp   bool
-	cases      int // number of generated scenarios (quick)
+	cases      int  // number of generated scenarios (quick)
+	race       bool // run the binary built with the Go race detector
 }
 
 type desc struct {
@@ -166,6 +167,11 @@ func main() {
 		os.Exit(3)
 	}
 
+	raceBin, raceErr := proxykit.BuildFFSignerRace(filepath.Join(work, "binrace"))
+	if raceErr != nil {
+		st.Extra["race_build_unavailable"] = clip(raceErr.Error(), 300)
+	}
+
 	be, err := proxykit.NewBackend()
 	if err != nil {
 		panic(err)
@@ -195,22 +201,24 @@ func main() {
 		return q
 	}
 	procs := []procConf{
-		{"configured-2022", 2022, result(`"1"`), true, nq(70, 900)},
-		{"discovered-hex-0x7e6", -1, result(`"0x7e6"`), true, nq(40, 500)},
-		{"configured-1", 1, result(`"1"`), true, nq(25, 300)},
-		{"discovered-number-1337", -1, result(`1337`), true, nq(25, 300)},
-		{"configured-0", 0, result(`"1"`), true, nq(12, 100)},
-		{"discovered-null-is-0", -1, result(`null`), true, nq(10, 100)},
-		{"discovered-wraps-2^64+5", -1, result(`"18446744073709551621"`), true, nq(10, 100)},
-		{"configured-2^40", 1 << 40, result(`"1"`), true, nq(12, 100)},
-		{"discovered-decimal-string-4", -1, result(`"4"`), true, nq(8, 100)},
-		{"discover-fails-rpcerror", -1, proxykit.Reply{Kind: proxykit.ReplyRPCError, Code: -32601, Message: "no such method"}, false, 0},
-		{"discover-fails-http500", -1, proxykit.Reply{Kind: proxykit.ReplyHTTPError, Status: 500}, false, 0},
-		{"discover-fails-unparsable", -1, result(`"abc"`), false, 0},
-		{"discover-fails-negative", -1, result(`"-5"`), false, 0},
-		{"discover-fails-drop", -1, proxykit.Reply{Kind: proxykit.ReplyDrop}, false, 0},
-		{"discover-fails-null-body", -1, proxykit.Reply{Kind: proxykit.ReplyRawBody, Body: []byte("null")}, false, 0},
-		{"discover-bool", -1, result(`true`), false, 0},
+		{"configured-2022", 2022, result(`"1"`), true, nq(70, 900), false},
+		{"discovered-hex-0x7e6", -1, result(`"0x7e6"`), true, nq(40, 500), false},
+		{"configured-1", 1, result(`"1"`), true, nq(25, 300), false},
+		{"discovered-number-1337", -1, result(`1337`), true, nq(25, 300), false},
+		{"configured-0", 0, result(`"1"`), true, nq(12, 100), false},
+		{"discovered-null-is-0", -1, result(`null`), true, nq(10, 100), false},
+		{"discovered-wraps-2^64+5", -1, result(`"18446744073709551621"`), true, nq(10, 100), false},
+		{"configured-2^40", 1 << 40, result(`"1"`), true, nq(12, 100), false},
+		{"discovered-decimal-string-4", -1, result(`"4"`), true, nq(8, 100), false},
+		{"race-detector-configured-5", 5, result(`"1"`), true, nq(26, 200), true},
+		{"discovered-2^40+7", -1, result(`"1099511627783"`), true, nq(8, 60), false},
+		{"discover-fails-rpcerror", -1, proxykit.Reply{Kind: proxykit.ReplyRPCError, Code: -32601, Message: "no such method"}, false, 0, false},
+		{"discover-fails-http500", -1, proxykit.Reply{Kind: proxykit.ReplyHTTPError, Status: 500}, false, 0, false},
+		{"discover-fails-unparsable", -1, result(`"abc"`), false, 0, false},
+		{"discover-fails-negative", -1, result(`"-5"`), false, 0, false},
+		{"discover-fails-drop", -1, proxykit.Reply{Kind: proxykit.ReplyDrop}, false, 0, false},
+		{"discover-fails-null-body", -1, proxykit.Reply{Kind: proxykit.ReplyRawBody, Body: []byte("null")}, false, 0, false},
+		{"discover-bool", -1, result(`true`), false, 0, false},
 	}
 
 	seen := map[string]bool{}
@@ -239,7 +247,16 @@ func main() {
 		cur.Store(nil)
 		be.Reset()
 		os.WriteFile(filepath.Join(*out, "current_case.json"), []byte(fmt.Sprintf(`{"proc":%q,"stage":"start"}`, pc.name)), 0o644)
-		p, err := proxykit.StartProxy(proxykit.ProxyOptions{Bin: bin, WorkDir: filepath.Join(work, fmt.Sprintf("run%d", pi)), KeyDir: keyDir, BackendURL: be.URL(), ChainID: pc.configured})
+		useBin := bin
+		var env []string
+		if pc.race {
+			if raceErr != nil {
+				continue
+			}
+			useBin = raceBin
+			env = []string{"GORACE=halt_on_error=0 exitcode=0"}
+		}
+		p, err := proxykit.StartProxy(proxykit.ProxyOptions{Bin: useBin, WorkDir: filepath.Join(work, fmt.Sprintf("run%d", pi)), KeyDir: keyDir, BackendURL: be.URL(), ChainID: pc.configured, Env: env})
 		started := err == nil
 		startFrames := be.Frames()
 		if *replay == "" || (rp.Case.Proc == pc.name && rp.Case.Index < 0) {
@@ -294,6 +311,27 @@ func main() {
 				}
 			})
 		}
+		if pc.race {
+			// the race detector flags unsynchronised slot writes / reads of the batch fan-out whatever
+			// the timing: batches of every size, all-local members included
+			plan = nil
+			for i := 0; i < pc.cases; i++ {
+				i := i
+				plan = append(plan, func() scenario {
+					switch i % 6 {
+					case 0:
+						return g.batch(thorough, batchSizes[(i/6)%len(batchSizes)], "local")
+					case 1:
+						return g.batch(thorough, batchSizes[g.r.Intn(len(batchSizes))], "passthrough")
+					case 2:
+						rl := newRules()
+						return g.single(rl, g.anyMember(rl, thorough))
+					default:
+						return g.batch(thorough, batchSizes[g.r.Intn(12)], "mixed")
+					}
+				})
+			}
+		}
 		if pi == 0 {
 			// regression corpus: the witnesses of the repaired defects D09a, D09b, D09c
 			for k := 0; k < 9; k++ {
@@ -312,6 +350,7 @@ func main() {
 			}
 		}
 
+		raceSeen := 0
 		for ci, mk := range plan {
 			sc := mk()
 			cur.Store(sc.rules)
@@ -341,7 +380,7 @@ func main() {
 			if pc.configured < 0 {
 				extra = []proxykit.Frame{nvFrame}
 			}
-			term := fmt.Sprintf("(CReq (%d)%%Z %s %s %s %s %s %d %s %s)", pc.configured, coqTable(frames, extra), accounts,
+			term := fmt.Sprintf("(CReq (%d)%%Z %s %s %s %s %s %s %d %s %s)", pc.configured, coqTable(extra, nil), coqTable(frames, nil), accounts,
 				cv.Compress(bodyPrefix(sc.body)).Coq(), treeCoq, coqNats(sc.order), status, replyCoq, coqFrames(frames))
 			d := desc{Proc: pc.name, Index: ci, Family: sc.family, Body: clip(string(sc.body), 6000), Status: status, Reply: clip(string(res.Body), 3000), Order: sc.order}
 			for i := range frames {
@@ -365,6 +404,23 @@ func main() {
 					fmt.Printf("implementation: status=%d reply=%s\nframes:\n  %s\n", status, clip(string(res.Body), 2000), strings.Join(d.Frames, "\n  "))
 				}
 			}
+			if pc.race {
+				log := p.Log()
+				mine, other := classifyRaces(log[raceSeen:])
+				raceSeen = len(log)
+				if len(other) > 0 {
+					n, _ := st.Extra["races_outside_the_proxy_packages"].(int)
+					st.Extra["races_outside_the_proxy_packages"] = n + len(other)
+					if _, ok := st.Extra["race_outside_sample"]; !ok {
+						st.Extra["race_outside_sample"] = clip(other[0], 1500)
+					}
+				}
+				if len(mine) > 0 {
+					st.ImplFailures = append(st.ImplFailures, map[string]interface{}{"what": "the Go race detector reports a data race inside internal/rpcserver or pkg/rpcbackend while serving this request (unsynchronised access to shared state of the batch fan-out / backend client)", "key": "C09/data-race",
+						"proc": pc.name, "index": ci, "body": clip(string(sc.body), 4000), "race_report": clip(mine[0], 2500)})
+					break
+				}
+			}
 			if !p.Alive() {
 				code, _ := p.ExitCode()
 				st.ImplFailures = append(st.ImplFailures, map[string]interface{}{"what": "the ffsigner process exited while serving a request", "key": "C09/process-exit",
@@ -386,6 +442,48 @@ func main() {
 	}
 	os.Remove(filepath.Join(*out, "current_case.json"))
 	st.Write(filepath.Join(*out, "stats_C09.json"))
+}
+
+// classifyRaces splits the race detector's reports into those whose racing accesses (the innermost
+// non-runtime frame of either access) lie in the proxy's own packages, and the others (e.g. inside
+// the third-party cache used by pkg/fswallet — property C17/C08 territory, not reported here).
+func classifyRaces(log string) (mine, other []string) {
+	for _, blk := range strings.Split(log, "==================") {
+		if !strings.Contains(blk, "WARNING: DATA RACE") {
+			continue
+		}
+		relevant := false
+		lines := strings.Split(blk, "\n")
+		for i, ln := range lines {
+			t := strings.TrimSpace(ln)
+			if !(strings.HasPrefix(t, "Read at") || strings.HasPrefix(t, "Write at") || strings.HasPrefix(t, "Previous read at") || strings.HasPrefix(t, "Previous write at") ||
+				strings.HasPrefix(t, "Atomic read at") || strings.HasPrefix(t, "Atomic write at") || strings.HasPrefix(t, "Previous atomic read at") || strings.HasPrefix(t, "Previous atomic write at")) {
+				continue
+			}
+			for j := i + 1; j < len(lines); j++ {
+				f := strings.TrimSpace(lines[j])
+				if f == "" {
+					break
+				}
+				if strings.HasPrefix(f, "/") || strings.HasPrefix(f, "<autogenerated>") {
+					continue // file:line
+				}
+				if strings.HasPrefix(f, "sync/atomic.") || strings.HasPrefix(f, "runtime.") || strings.HasPrefix(f, "reflect.") || strings.HasPrefix(f, "encoding/json.") {
+					continue
+				}
+				if strings.Contains(f, "firefly-signer/internal/rpcserver.") || strings.Contains(f, "firefly-signer/pkg/rpcbackend.") {
+					relevant = true
+				}
+				break
+			}
+		}
+		if relevant {
+			mine = append(mine, strings.TrimSpace(blk))
+		} else {
+			other = append(other, strings.TrimSpace(blk))
+		}
+	}
+	return
 }
 
 func tail(s string, n int) string {
